@@ -1223,8 +1223,78 @@ pub fn run_public(prop: &str, ctx: &Ctx) -> i32 {
     }
     if prop == "C12" {
         cross_check_public_full(ctx, &rep, &ws);
+        prover_path_public(ctx, &rep);
     }
     rep.finish(ctx, ctx.tier.pick(200, 2000))
+}
+
+/// End to end through the repository's own prover: the caller's vector (real inners with caller-supplied all-dummy inners
+/// at every position, also BEFORE real ones) goes through PublicBatchProver::commit and prove; the proof's public output
+/// must be order-preserving forwarding of the CALLER'S vector followed by padding templates.
+fn prover_path_public(ctx: &Ctx, rep: &Report) {
+    use qp_wormhole_inputs::BytesDigest;
+    use wormhole_aggregator::public_batch::prover::{PublicBatchInputs, PublicBatchProver};
+    use zk_circuits_common::circuit::wormhole_public_batch_circuit_config;
+    let (m, n) = (3usize, 1usize);
+    let fake = FakeLeaf::build(priv_pi_len(n));
+    let mut tv = vec![F::ZERO; priv_pi_len(n)];
+    tv[0] = f(2 * n as u64);
+    let Ok(template) = fake.prove(&tv) else { return };
+    let vd = match PubFull::build(&fake.data, m, n) {
+        Ok(x) => x.data.verifier_data(),
+        Err(_) => return,
+    };
+    let mut rng = ctx.rng("pubprover");
+    let layouts: Vec<Vec<bool>> = ctx.tier.pick(
+        vec![vec![false, true], vec![true, false, true], vec![true, true]],
+        vec![vec![false, true], vec![true, false, true], vec![true, true], vec![false, false, true], vec![false, true, false], vec![true], vec![true, false]],
+    );
+    for layout in layouts {
+        if ctx.over_budget() {
+            break;
+        }
+        let key = (rand_d4(&mut rng), f(0), f(3));
+        let supplied: Vec<Vec<F>> = layout.iter().map(|&real| {
+            let mut v = random_inner(&mut rng, n, Some(key), !real);
+            for k in 1..4 {
+                v[k] = f(u(v[k]) & M32);
+            }
+            v[0] = f(2 * n as u64);
+            v
+        }).collect();
+        let proofs: Vec<_> = supplied.iter().map(|v| fake.prove(v).unwrap()).collect();
+        let addr = rand_d4(&mut rng);
+        let Ok(prover) = PublicBatchProver::new(wormhole_public_batch_circuit_config(), fake.data.common.clone(), &fake.data.verifier_only, m, n, template.clone()) else {
+            rep.inconclusive("PublicBatchProver::new failed for a valid template");
+            return;
+        };
+        let addr_bytes = BytesDigest::try_from(crate::realleaf::d4_bytes(&addr)).unwrap();
+        rep.eval();
+        rep.count("prover_path_cases");
+        let res = std::panic::catch_unwind(std::panic::AssertUnwindSafe(|| prover.commit(PublicBatchInputs { proofs: proofs.clone(), aggregator_address: addr_bytes }).and_then(|c| c.prove())));
+        let case = json!({"layout_real": layout, "supplied": supplied.iter().map(|c| u64s(c)).collect::<Vec<_>>()});
+        match res {
+            Ok(Ok(proof)) => {
+                if vd.verify(proof.clone()).is_err() {
+                    rep.violation("public-wrapper output / prover path proof does not verify", "PublicBatchProver produced a proof that does not verify", case);
+                    continue;
+                }
+                let mut padded = supplied.clone();
+                while padded.len() < m {
+                    padded.push(tv.clone());
+                }
+                let expect = pub_model_output(&padded, &addr, n);
+                rep.nontrivial(&("prover-path", u64s(&proof.public_inputs)));
+                if proof.public_inputs != expect {
+                    let pos = proof.public_inputs.iter().zip(&expect).position(|(a, b)| a != b).unwrap_or(0);
+                    rep.violation("public-wrapper output / prover path does not forward the caller's vector in order",
+                        &format!("the public batch proved by PublicBatchProver for the caller's vector (real/dummy layout {layout:?}) differs from order-preserving forwarding of that vector at position {pos}"), case);
+                }
+            }
+            Ok(Err(e)) => rep.violation("public-wrapper output / prover path rejects a compatible vector", &format!("PublicBatchProver rejected a compatible vector with caller-supplied dummy inners: {}", e.to_string().chars().take(160).collect::<String>()), case),
+            Err(_) => rep.violation("public-wrapper output / prover path panics", "PublicBatchProver panicked", case),
+        }
+    }
 }
 
 /// the shipped PublicBatchCircuit::new over a fake (21N+8)-PI inner must agree with the wrapper-only form
